@@ -116,6 +116,9 @@ CHAIN_POOL = [
     [('split', [('pipe', [('delay', 1, 0), ('delay', 1, 0)])], [('delay', 0, 3)])],
     # a constant column in the data a centre generator is fitted on (zero range of one feature)
     [('const',), ('rbf', 0, 2)],
+    # two angle features (a state and the input) unwrapped on the way back: one episode (recorded finding F11
+    # concerns several), values of the two columns more than pi apart in the same sample
+    [('angle', (0, 2), True, (0, -1))],
 ]
 
 
@@ -132,6 +135,8 @@ def gen_real_case(rng, cid, max_len=3, max_depth=2, allow=None, short_prob=0.0, 
             for sp in chain:
                 d = sg.dims_out(sp, *d)
             need = None
+            if any(sp[0] == 'angle' and sp[2] for sp in chain):
+                max_eps = 1
         else:
             chain, d = sg.gen_chain(rng, ns, nu, max_len, max_depth, allow)
         if not chain:
@@ -152,7 +157,12 @@ def gen_real_case(rng, cid, max_len=3, max_depth=2, allow=None, short_prob=0.0, 
         if len(order) < w + 2:
             order = order + [order[-1]] * 2
         X = real_data(rng, order, ns, nu, ep)
-        if nu > 0 and rng.random() < 0.2:
+        if use_pool and cid < len(CHAIN_POOL) and chain is CHAIN_POOL[cid] and chain[0][0] == 'angle' and chain[0][2]:
+            # the two unwrapped angle columns stay more than pi apart (both inside (-pi, pi), both slowly varying)
+            o = 1 if ep else 0
+            X[:, o + 0] = -2.8 + 0.1 * np.abs(X[:, o + 0])
+            X[:, o + 2] = 2.8 - 0.1 * np.abs(X[:, o + 2])
+        elif nu > 0 and rng.random() < 0.2:
             # an unforced episode: the whole input sequence of one episode is exactly zero (zero input is
             # an input like any other: its lifted value need not be zero)
             lab = order[int(rng.integers(0, len(order)))]
@@ -205,7 +215,8 @@ def desc(case, **kw):
              X=np.asarray(case['X']).tolist(),
              fit_on_zero_inputs=bool(case.get('Xfit') is not case['X']),
              cid=int(case.get('cid', 0)), refitted_after_other_layout=bool(case.get('prefit', False)),
-             array_presentation=case.get('presentation', 'float'))
+             array_presentation=case.get('presentation', 'float'),
+             skip_validation=bool(case.get('skip_validation', False)))
     d.update(kw)
     return d
 
